@@ -98,13 +98,13 @@ def classify_th(op, impl):
     return (t[0],)
 
 
-def run_texthandlers(ctx, prefixes=("C13:",)):
-    """the REAL server-side text command handlers / Process() / value readers (harness mode `texthandlers`)"""
+def run_texthandlers(ctx, prefixes=("C13:",), part=None):
+    """the REAL server-side text command handlers / Process() / value readers (harness mode `texthandlers`); `part` = one part only"""
     exe = ctx.build_harness("server", only=TH_FILES)
     if not exe:
         return
     n = 10 if ctx.tier == "quick" else 400
-    outdir = ctx.run_harness(exe, "texthandlers", n, timeout=900)
+    outdir = ctx.run_harness(exe, "texthandlers", n, timeout=900, extra=({"VERIF_TH_PART": part} if part else None))
     if not outdir:
         return
     dis = ctx.diff(outdir, "texthandlers", classify=classify_th)
@@ -113,6 +113,8 @@ def run_texthandlers(ctx, prefixes=("C13:",)):
         d = dis[0]
         ctx.broken.append({"kind": "correspondence", "name": "value-reader model vs real LockResultCommandData readers",
                            "detail": f"{len(dis)} disagreements; first: op={d[1][:300]} impl={d[2][:300]} model={d[3][:300]}"})
+    if part:
+        return
     # the binary CALL layer: every registered call method × bodies, CALL frames through Process() (harness mode `callhandlers`)
     outdir = ctx.run_harness(exe, "callhandlers", 10 if ctx.tier == "quick" else 200, timeout=900)
     if outdir:
